@@ -80,10 +80,22 @@ def instances():
     return out
 
 
+HELPERS = ["__register_counter_vec", "__register_gauge", "__register_gauge_vec"]
+
+
 def generate():
     lines = ["// GENERATED by harness/forms/forms_table.py — one function per public macro form; arguments are opaque parameters,",
              "// so facts about the expansion's MIR hold for all argument values.  Never executed.",
-             "#![allow(unused_imports, clippy::all)]", "use prometheus::*;", ""]
+             "//",
+             "// Hygiene probe: every macro of the crate is shadowed here by a decoy of the same name, and the forms are invoked through their",
+             "// absolute path.  An arm that refers to a sibling macro without `$crate::` (or `local_inner_macros`) would pick up the decoy, whose",
+             "// expansion is a call of `forms::decoy` and is reported by the call-multiset rule.",
+             "#![allow(unused_macros, unused_imports, clippy::all)]", "",
+             "pub fn decoy<T>() -> T {", "    unreachable!()", "}", ""]
+    names = sorted(set(m for m, _, _, _ in FORMS)) + HELPERS
+    for n in names:
+        lines.append("macro_rules! %s {\n    ($($t:tt)*) => {\n        $crate::decoy()\n    };\n}" % n)
+    lines.append("")
     for inst in instances():
         params = []
         call_args = []
@@ -95,7 +107,7 @@ def generate():
             else:
                 params.append("%s: %s" % (a.lower(), ARG_TY[a]))
                 call_args.append(a.lower())
-        body = "%s!(%s%s)" % (inst["macro"], ", ".join(call_args), "," if inst["comma"] else "")
+        body = "prometheus::%s!(%s%s)" % (inst["macro"], ", ".join(call_args), "," if inst["comma"] else "")
         lines.append("pub fn %s(%s) -> %s {\n    %s\n}\n" % (inst["fn"], ", ".join(params), ret_type(inst["kind"], inst["metric"]), body))
     return "\n".join(lines)
 
